@@ -667,6 +667,8 @@ def run_core(pid, tier, seed):
             line = f"KNOWN-FINDING: property={pid} {listed[0].get('what', sig)}"
             if line not in known_lines:
                 known_lines.append(line)
+        elif any(k.get("status") == "known" and k.get("signature") == sig for k in kn):
+            pass      # a listed finding of ANOTHER property, met by a mode this check shares with that property's check
         else:
             o_viols.append(dict(tag=pid, what=f"[{sig}] " + v["what"], replay=v["replay"]))
     if o_viols:
